@@ -8,8 +8,15 @@ import knotops as KO
 PID = 'C06'
 STATS = G.STATS
 PARTIAL = [
-    "insert_remove_id (the control points after r insertions and r removals are the original ones, for every degree / position / multiplicity) is not yet proved in Lean; it is checked by the exact oracle and the correspondence",
-    "'whenever removable at all' (uniqueness of B-spline coefficients) is not attempted",
+    "proved in Lean (Props/C06.lean, every degree / position / prior multiplicity / count): r insertions of a knot followed "
+    "by t <= r removals (span k+r and multiplicity s+r, which are what the library's searches return) give exactly the "
+    "control points of r-t insertions (t = r: the original ones) for curves, both directions of surfaces and all three "
+    "directions of volumes; sizes and knot vectors drop by the count; evaluated curve points are unchanged; object-level "
+    "insert_knot / remove_knot round trip for curves. NOT proved: knots produced by refinement, or inserted knots after "
+    "which OTHER knots were inserted, i.e. 'whenever removable at all' (needs uniqueness of B-spline coefficients / "
+    "linear independence); these are checked by the exact oracle and the correspondence only",
+    "the object-level (Shape) round trip and the evaluated-point corollary are stated for curves only; for surfaces and "
+    "volumes the net-level theorem (result = net of r-t insertions) plus C04 gives the same conclusion",
     "volumes: one removability flag is computed from the first iso-curve (as the code does); the model decides per iso-curve, so only removable knots are generated for volumes",
 ]
 
